@@ -7,7 +7,9 @@
      Proofs/TVCommon.v, TV1..TV4.v, TestVectorsP.v (test vectors, evaluated in the kernel)
      Proofs/C15P.v          (both halves joined)
      Proofs/GenRefImplP.v   (the functions of reference_impl.rs translated from the source text,
-                             gen/GenRefImpl.v, against the model: C15_ref_src_*, at the end).
+                             gen/GenRefImpl.v, against the model: C15_ref_src_*, at the end)
+     Proofs/GenRefImplLoopsP.v (the rest of reference_impl.rs, gen/GenRefImplLoops.v: the loops, the
+                             Hasher; and the translated implementation against the specification).
    Model: Model/RefImpl.v mirrors reference_impl/reference_impl.rs; `Ok` is the
    no-panic claim: every index, slice, `+=`/`-` overflow check and debug_assert of the
    reference implementation is an `assert!` of the model (the CV stack never needs
@@ -18,6 +20,7 @@ From V Require Import Base.Res Base.Word gen.GenConsts gen.GenTestVectors
   Model.Platform Model.RsWide
   Proofs.RefCompressP Proofs.RefImplP Proofs.TVCommon Proofs.TestVectorsP Proofs.C15P.
 From V Require Import Base.Arr gen.GenRefImpl Proofs.GenRefImplP.
+From V Require Import Base.MachInt Base.Arr2 gen.GenRefImplLoops Proofs.GenRefImplLoopsP.
 Import ListNotations.
 Open Scope N_scope.
 
@@ -248,3 +251,257 @@ Theorem C15_ref_src_parent_cv : forall left_child_cv right_child_cv key_words fl
   Ok (refsrc_parent_cv left_child_cv right_child_cv key_words flags).
 Proof. exact refsrc_parent_cv_eq. Qed.
 Print Assumptions C15_ref_src_parent_cv.
+
+(* ---- the rest of reference_impl.rs against the model and the specification ----------------------------
+   gen/GenRefImplLoops.v (tools/gen_coq.py gen_refimpl_loops) is Output::root_output_bytes, ChunkState::new /
+   update / output and the whole `impl Hasher` translated statement by statement: `while` loops are Fixpoints on
+   explicit fuel (OutOfFuel when it runs out), `for .. in chunks_mut(n)` recurses over the part of the slice not
+   visited yet, `[[u32; 8]; 54]` is a list of lists with the bounds asserts of the source (Base/Arr2.v).
+   Records of the translation are mapped to the model's by ro_of_src / rcs_of_src / rh_of_src; results are compared
+   through res_map; wt_out / wt_cs / wt_h are the declared types (array lengths, u8 fields below 256).
+   The three simple loops equal the model's loops for EVERY fuel (OutOfFuel / Panic results included).  Where the
+   model is shaped differently (it gives every inner loop its own fuel - 320 in add_chunk_chaining_value,
+   S (length input) in ChunkState::update, S (out_len / 64) in root_output_bytes - and recurses on the counter in
+   finalize, while the translation threads one fuel through all loops) the statements are: equal with enough fuel
+   (explicit bound), and with ANY fuel OutOfFuel or equal (fuel_approx). *)
+Theorem C15_ref_src_representation :
+  (forall cs kw st sl fl, rh_of_src (refsrc_Hasher_mk cs kw st sl fl) = mkRH (rcs_of_src cs) kw st sl fl) /\
+  (forall A B (f : A -> B) a, res_map f (Ok a) = Ok (f a)) /\
+  (forall A B (f : A -> B) c, res_map f (Panic c) = Panic c) /\
+  (forall A B (f : A -> B), res_map f OutOfFuel = OutOfFuel) /\
+  (forall A (r m : res A), fuel_approx r m <-> (r = OutOfFuel \/ r = m)) /\
+  (forall o, wt_out o <->
+     (length (refsrc_Output_input_chaining_value o) = 8%nat /\ length (refsrc_Output_block_words o) = 16%nat)) /\
+  (forall c, wt_cs c <->
+     (length (refsrc_ChunkState_chaining_value c) = 8%nat /\ length (refsrc_ChunkState_block c) = 64%nat /\
+      refsrc_ChunkState_block_len c < 256 /\ refsrc_ChunkState_blocks_compressed c < 256)) /\
+  (forall h, wt_h h <->
+     (wt_cs (refsrc_Hasher_chunk_state h) /\ length (refsrc_Hasher_key_words h) = 8%nat /\
+      Forall (fun cv => length cv = 8%nat) (refsrc_Hasher_cv_stack h) /\ refsrc_Hasher_cv_stack_len h < 256)) /\
+  (forall p, cs_pair p = rcs_of_src (fst p)) /\ (forall p, h_pair p = rh_of_src (fst p)) /\
+  (forall p, o_pair p = ro_of_src (fst p)) /\
+  (forall p, h_cv p = (rh_of_src (fst p), snd p)) /\ (forall p, h_cv3 p = (rh_of_src (fst (fst p)), snd (fst p))) /\
+  (forall A s (r : res A), ref_at_site s r = match r with Panic _ => Panic s | _ => r end).
+Proof. repeat split; try reflexivity; try (unfold fuel_approx, wt_out, wt_h, wt_cs in *; tauto). Qed.
+Print Assumptions C15_ref_src_representation.
+
+(* Output::root_output_bytes: the chunks_mut loop for every fuel (its second component is the final counter) *)
+Theorem C15_ref_src_root_output_bytes_loop : forall o, wt_out o -> forall fuel out_slice counter,
+  res_map fst (refsrc_Output_root_output_bytes_loop2 fuel o out_slice counter 64) =
+  ref_root_loop fuel (ro_of_src o) counter (rlen out_slice).
+Proof. exact refsrc_root_loop_eq. Qed.
+Print Assumptions C15_ref_src_root_output_bytes_loop.
+
+Theorem C15_ref_src_root_output_bytes : forall o fuel out_slice, wt_out o ->
+  refsrc_Output_root_output_bytes fuel o out_slice = ref_root_loop fuel (ro_of_src o) 0 (rlen out_slice).
+Proof. exact refsrc_Output_root_output_bytes_eq. Qed.
+Print Assumptions C15_ref_src_root_output_bytes.
+
+Theorem C15_ref_src_root_output_bytes_any_fuel : forall fuel o out_slice, wt_out o ->
+  fuel_approx (refsrc_Output_root_output_bytes fuel o out_slice) (ro_root_output_bytes (ro_of_src o) (rlen out_slice)).
+Proof. exact refsrc_Output_root_output_bytes_any_fuel. Qed.
+Print Assumptions C15_ref_src_root_output_bytes_any_fuel.
+
+Theorem C15_ref_src_chunk_state_new : forall key_words chunk_counter flags,
+  rcs_of_src (refsrc_ChunkState_new key_words chunk_counter flags) = rcs_new key_words chunk_counter flags.
+Proof. exact refsrc_ChunkState_new_eq. Qed.
+Print Assumptions C15_ref_src_chunk_state_new.
+
+(* ChunkState::update: the loop and the function for every fuel; the model's rcs_update is the loop at S (length input) *)
+Theorem C15_ref_src_chunk_state_update_loop : forall fuel cs input, wt_cs cs ->
+  res_map cs_pair (refsrc_ChunkState_update_loop1 fuel cs input) = rcs_update_loop fuel (rcs_of_src cs) input.
+Proof. exact refsrc_ChunkState_update_loop_eq. Qed.
+Print Assumptions C15_ref_src_chunk_state_update_loop.
+
+Theorem C15_ref_src_chunk_state_update : forall fuel cs input, wt_cs cs ->
+  res_map rcs_of_src (refsrc_ChunkState_update fuel cs input) = rcs_update_loop fuel (rcs_of_src cs) input.
+Proof. exact refsrc_ChunkState_update_eq. Qed.
+Print Assumptions C15_ref_src_chunk_state_update.
+
+Theorem C15_ref_src_chunk_state_update_model : forall cs input, wt_cs cs ->
+  res_map rcs_of_src (refsrc_ChunkState_update (S (length input)) cs input) = rcs_update (rcs_of_src cs) input.
+Proof. exact refsrc_ChunkState_update_model. Qed.
+Print Assumptions C15_ref_src_chunk_state_update_model.
+
+Theorem C15_ref_src_chunk_state_update_any_fuel : forall fuel cs input, wt_cs cs ->
+  fuel_approx (res_map rcs_of_src (refsrc_ChunkState_update fuel cs input)) (rcs_update (rcs_of_src cs) input).
+Proof. exact refsrc_ChunkState_update_any_fuel. Qed.
+Print Assumptions C15_ref_src_chunk_state_update_any_fuel.
+
+Theorem C15_ref_src_chunk_state_output : forall cs, wt_cs cs ->
+  res_map ro_of_src (refsrc_ChunkState_output cs) = rcs_output (rcs_of_src cs).
+Proof. exact refsrc_ChunkState_output_eq. Qed.
+Print Assumptions C15_ref_src_chunk_state_output.
+
+(* the constructors *)
+Theorem C15_ref_src_new_internal : forall key_words flags,
+  rh_of_src (refsrc_Hasher_new_internal key_words flags) = ref_new_internal key_words flags.
+Proof. exact refsrc_Hasher_new_internal_eq. Qed.
+Print Assumptions C15_ref_src_new_internal.
+
+Theorem C15_ref_src_new : rh_of_src refsrc_Hasher_new = ref_new.
+Proof. exact refsrc_Hasher_new_eq. Qed.
+Print Assumptions C15_ref_src_new.
+
+Theorem C15_ref_src_new_keyed : forall key,
+  res_map rh_of_src (refsrc_Hasher_new_keyed key) = ref_new_keyed key.
+Proof. exact refsrc_Hasher_new_keyed_eq. Qed.
+Print Assumptions C15_ref_src_new_keyed.
+
+Theorem C15_ref_src_new_derive_key : forall fuel context, (length context + 256 < fuel)%nat ->
+  res_map rh_of_src (refsrc_Hasher_new_derive_key fuel context) = ref_new_derive_key context.
+Proof. exact refsrc_Hasher_new_derive_key_eq. Qed.
+Print Assumptions C15_ref_src_new_derive_key.
+
+Theorem C15_ref_src_new_derive_key_any_fuel : forall fuel context,
+  fuel_approx (res_map rh_of_src (refsrc_Hasher_new_derive_key fuel context)) (ref_new_derive_key context).
+Proof. exact refsrc_Hasher_new_derive_key_any_fuel. Qed.
+Print Assumptions C15_ref_src_new_derive_key_any_fuel.
+
+(* the CV stack *)
+Theorem C15_ref_src_push_stack : forall h cv, wt_h h -> length cv = 8%nat ->
+  res_map rh_of_src (refsrc_Hasher_push_stack h cv) = ref_push_stack (rh_of_src h) cv.
+Proof. exact refsrc_Hasher_push_stack_eq. Qed.
+Print Assumptions C15_ref_src_push_stack.
+
+Theorem C15_ref_src_pop_stack : forall h, wt_h h ->
+  res_map h_cv (refsrc_Hasher_pop_stack h) = ref_pop_stack (rh_of_src h).
+Proof. exact refsrc_Hasher_pop_stack_eq. Qed.
+Print Assumptions C15_ref_src_pop_stack.
+
+(* add_chunk_chaining_value: the loop for every fuel; the function for every fuel against the model's text with the
+   fuel as a parameter; the model itself (fuel 320) *)
+Theorem C15_ref_src_add_cv_loop : forall fuel h new_cv total_chunks, wt_h h -> length new_cv = 8%nat ->
+  res_map h_cv3 (refsrc_Hasher_add_chunk_chaining_value_loop1 fuel h new_cv total_chunks) =
+  ref_add_cv_loop fuel (rh_of_src h) new_cv total_chunks.
+Proof. exact refsrc_Hasher_add_cv_loop_eq. Qed.
+Print Assumptions C15_ref_src_add_cv_loop.
+
+Theorem C15_ref_src_add_chunk_chaining_value : forall fuel h new_cv total_chunks, wt_h h -> length new_cv = 8%nat ->
+  res_map rh_of_src (refsrc_Hasher_add_chunk_chaining_value fuel h new_cv total_chunks) =
+  ('(h, new_cv) <- ref_add_cv_loop fuel (rh_of_src h) new_cv total_chunks ;; ref_push_stack h new_cv).
+Proof. exact refsrc_Hasher_add_chunk_chaining_value_eq. Qed.
+Print Assumptions C15_ref_src_add_chunk_chaining_value.
+
+Theorem C15_ref_src_add_chunk_chaining_value_model : forall h new_cv total_chunks, wt_h h -> length new_cv = 8%nat ->
+  res_map rh_of_src (refsrc_Hasher_add_chunk_chaining_value ref_add_cv_fuel h new_cv total_chunks) =
+  ref_add_chunk_chaining_value (rh_of_src h) new_cv total_chunks.
+Proof. exact refsrc_Hasher_add_chunk_chaining_value_model. Qed.
+Print Assumptions C15_ref_src_add_chunk_chaining_value_model.
+
+Theorem C15_ref_src_add_chunk_chaining_value_any_fuel : forall fuel h new_cv total_chunks,
+  wt_h h -> length new_cv = 8%nat ->
+  fuel_approx (res_map rh_of_src (refsrc_Hasher_add_chunk_chaining_value fuel h new_cv total_chunks))
+              (ref_add_chunk_chaining_value (rh_of_src h) new_cv total_chunks).
+Proof. exact refsrc_Hasher_add_chunk_chaining_value_any_fuel. Qed.
+Print Assumptions C15_ref_src_add_chunk_chaining_value_any_fuel.
+
+(* Hasher::update: the loop with fuel F against the model's loop with fuel f (the inner loops of the translation run
+   on F as well, the model's on their own fuel); the function with enough fuel, and with any fuel *)
+Theorem C15_ref_src_update_loop : forall f F h input, wt_h h ->
+  (length input < f)%nat -> (length input + 256 < F)%nat ->
+  res_map h_pair (refsrc_Hasher_update_loop1 F h input) = ref_update_loop f (rh_of_src h) input.
+Proof. intros f F h input H1 H2 H3. apply (refsrc_update_loop_rel f F h input H1 H2 H3). Qed.
+Print Assumptions C15_ref_src_update_loop.
+
+Theorem C15_ref_src_update : forall fuel h input, wt_h h -> (length input + 256 < fuel)%nat ->
+  res_map rh_of_src (refsrc_Hasher_update fuel h input) = ref_update (rh_of_src h) input.
+Proof. exact refsrc_Hasher_update_eq. Qed.
+Print Assumptions C15_ref_src_update.
+
+Theorem C15_ref_src_update_any_fuel : forall fuel h input, wt_h h ->
+  fuel_approx (res_map rh_of_src (refsrc_Hasher_update fuel h input)) (ref_update (rh_of_src h) input).
+Proof. exact refsrc_Hasher_update_any_fuel. Qed.
+Print Assumptions C15_ref_src_update_any_fuel.
+
+Theorem C15_ref_src_update_keeps_types : forall fuel h input h', wt_h h ->
+  refsrc_Hasher_update fuel h input = Ok h' -> wt_h h'.
+Proof. exact refsrc_Hasher_update_wt. Qed.
+Print Assumptions C15_ref_src_update_keeps_types.
+
+(* Hasher::finalize: the loop (the model recurses on parent_nodes_remaining itself), the function *)
+Theorem C15_ref_src_finalize_loop : forall fuel h out_slice output n, wt_h h -> wt_out output -> (N.to_nat n <= fuel)%nat ->
+  res_map o_pair (refsrc_Hasher_finalize_loop1 fuel h out_slice output n) =
+  ref_finalize_loop (N.to_nat n) (rh_of_src h) (ro_of_src output).
+Proof. intros F h os o n H1 H2 H3. apply (refsrc_finalize_loop_rel F h os o n H1 H2 H3). Qed.
+Print Assumptions C15_ref_src_finalize_loop.
+
+Theorem C15_ref_src_finalize : forall fuel h out_slice, wt_h h ->
+  (256 <= fuel)%nat -> (length out_slice <= 64 * fuel)%nat ->
+  refsrc_Hasher_finalize fuel h out_slice = ref_finalize (rh_of_src h) (rlen out_slice).
+Proof. exact refsrc_Hasher_finalize_eq. Qed.
+Print Assumptions C15_ref_src_finalize.
+
+Theorem C15_ref_src_finalize_any_fuel : forall fuel h out_slice, wt_h h ->
+  fuel_approx (refsrc_Hasher_finalize fuel h out_slice) (ref_finalize (rh_of_src h) (rlen out_slice)).
+Proof. exact refsrc_Hasher_finalize_any_fuel. Qed.
+Print Assumptions C15_ref_src_finalize_any_fuel.
+
+(* ---- the TRANSLATED reference implementation computes the specification ------------------------------------
+   refsrc_run: the translated constructor of the mode, one translated Hasher::update per piece, the translated
+   Hasher::finalize into out_slice.  No hand-written model in the statement. *)
+Theorem C15_ref_src_run_def : forall fuel m pieces out_slice,
+  refsrc_run fuel m pieces out_slice =
+  (h <- match m with
+        | SrcHash => Ok refsrc_Hasher_new
+        | SrcKeyed k => refsrc_Hasher_new_keyed k
+        | SrcDerive c => refsrc_Hasher_new_derive_key fuel c
+        end ;;
+   h <- refsrc_update_all fuel h pieces ;;
+   refsrc_Hasher_finalize fuel h out_slice) /\
+  (forall h, refsrc_update_all fuel h [] = Ok h) /\
+  (forall h p tl, refsrc_update_all fuel h (p :: tl) =
+                  (h <- refsrc_Hasher_update fuel h p ;; refsrc_update_all fuel h tl)) /\
+  refsrc_spec_mode m = match m with
+                       | SrcHash => Hash
+                       | SrcKeyed k => KeyedHash k
+                       | SrcDerive c => DeriveKeyMaterial (b3_hash_mode DeriveKeyContext c)
+                       end /\
+  (refsrc_mode_ok m <-> match m with
+                        | SrcHash => True
+                        | SrcKeyed k => length k = 32%nat /\ Forall (fun b => b < 256) k
+                        | SrcDerive c => len c < 2 ^ 64
+                        end) /\
+  (refsrc_fuel_ok fuel m pieces out_slice <->
+   (length (concat pieces) + match m with SrcDerive c => length c | _ => 0%nat end + length out_slice + 256 < fuel)%nat).
+Proof.
+  intros. destruct m; repeat split; try reflexivity;
+    try (unfold refsrc_mode_ok, refsrc_fuel_ok in *; cbn [refsrc_context_len] in *; tauto).
+Qed.
+Print Assumptions C15_ref_src_run_def.
+
+Theorem C15_ref_src_run_is_model : forall fuel m pieces out_slice, refsrc_fuel_ok fuel m pieces out_slice ->
+  refsrc_run fuel m pieces out_slice = ref_run (ref_mode_of_src m) pieces (rlen out_slice).
+Proof. exact refsrc_run_model. Qed.
+Print Assumptions C15_ref_src_run_is_model.
+
+Theorem C15_ref_src_run_spec : forall fuel m pieces out_slice,
+  refsrc_mode_ok m -> len (concat pieces) < 2 ^ 64 -> len out_slice < 2 ^ 64 ->
+  refsrc_fuel_ok fuel m pieces out_slice ->
+  refsrc_run fuel m pieces out_slice =
+  Ok (b3_xof_mode (refsrc_spec_mode m) (concat pieces) 0 (length out_slice)).
+Proof. exact refsrc_run_spec. Qed.
+Print Assumptions C15_ref_src_run_spec.
+
+(* with any fuel: OutOfFuel or the specification's output, never another value or a Panic *)
+Theorem C15_ref_src_run_any_fuel : forall fuel m pieces out_slice,
+  refsrc_mode_ok m -> len (concat pieces) < 2 ^ 64 -> len out_slice < 2 ^ 64 ->
+  fuel_approx (refsrc_run fuel m pieces out_slice)
+              (Ok (b3_xof_mode (refsrc_spec_mode m) (concat pieces) 0 (length out_slice))).
+Proof. exact refsrc_run_any_fuel. Qed.
+Print Assumptions C15_ref_src_run_any_fuel.
+
+(* non-vacuity: the translation runs, and its stack bound is real (a 55th push panics with the model's code) *)
+Example C15_ref_src_nonvacuous :
+  (let key := map N.of_nat (seq 0 32) in
+   let pieces := [map (fun i => N.of_nat i mod 251) (seq 0 1100); map (fun i => N.of_nat i mod 251) (seq 1100 400)] in
+   is_ok (refsrc_run 2000 (SrcKeyed key) pieces (repeat 0 70)) = true /\
+   refsrc_fuel_ok 2000 (SrcKeyed key) pieces (repeat 0 70) /\ refsrc_mode_ok (SrcKeyed key)) /\
+  refsrc_Hasher_push_stack (refsrc_Hasher_mk (refsrc_ChunkState_new ref_IV 0 0) ref_IV (repeat (repeat 0 8) 54) 54 0)
+    (repeat 0 8) = Panic 71 /\
+  refsrc_Hasher_pop_stack refsrc_Hasher_new = Panic 72 /\
+  refsrc_run 0 SrcHash [[1; 2; 3]] (repeat 0 32) = OutOfFuel /\ is_ok (refsrc_run 3 SrcHash [[1; 2; 3]] (repeat 0 32)) = true.
+Proof.
+  split; [exact refsrc_run_example|]. repeat split; vm_compute; reflexivity.
+Qed.
+Print Assumptions C15_ref_src_nonvacuous.
